@@ -123,7 +123,7 @@ func main() {
 func runFixed(w *World, h *History, out *bufio.Writer, record func(*Runner)) {
 	ops := h.Ops
 	h.Ops = nil
-	a := standardAtoms()
+	a := atomsFor(h)
 	r := newRunner(w, a, h, out)
 	r.header()
 	for i := range ops {
